@@ -15,6 +15,7 @@ import (
 	"strings"
 	"sync"
 	"sync/atomic"
+	"time"
 
 	"github.com/regclient/regclient/zzverif/simreg"
 )
@@ -120,9 +121,9 @@ func (c *content) buildWorld(world map[string]map[string]string, lay, files stri
 			return nil, err
 		}
 	}
-	// tar files: good.tar = OCI layout of M1 tagged v1; bad.tar = not a tar
+	// tar files: good.tar = OCI layout of M1 (one unnamed index entry); bad.tar = not a tar
 	var buf bytes.Buffer
-	if err := c.writeTar(&buf, map[string]string{"v1": "M1"}); err != nil {
+	if err := c.writeTar(&buf, map[string]string{"-": "M1"}); err != nil {
 		return nil, err
 	}
 	if err := os.WriteFile(filepath.Join(files, "good.tar"), buf.Bytes(), 0o644); err != nil {
@@ -149,8 +150,12 @@ func (c *content) layoutFiles(tags map[string]string) map[string][]byte {
 	var entries []string
 	for _, tag := range sortedKeys(tags) {
 		id := tags[tag]
-		entries = append(entries, fmt.Sprintf(`{"mediaType":"%s","digest":"%s","size":%d,"annotations":{"org.opencontainers.image.ref.name":"%s"}}`,
-			c.mt[id], c.dig[id], len(c.body[id]), tag))
+		if tag == "-" { // entry without a name (the tar file)
+			entries = append(entries, fmt.Sprintf(`{"mediaType":"%s","digest":"%s","size":%d}`, c.mt[id], c.dig[id], len(c.body[id])))
+		} else {
+			entries = append(entries, fmt.Sprintf(`{"mediaType":"%s","digest":"%s","size":%d,"annotations":{"org.opencontainers.image.ref.name":"%s"}}`,
+				c.mt[id], c.dig[id], len(c.body[id]), tag))
+		}
 		for _, x := range c.closure(id) {
 			fl["blobs/sha256/"+strings.TrimPrefix(c.dig[x], "sha256:")] = c.body[x]
 		}
@@ -211,6 +216,14 @@ type worker struct {
 	net      *simreg.Net
 	inflight atomic.Int64
 	served   atomic.Int64
+	tmu      sync.Mutex
+	times    map[int]time.Time // simreg request sequence number -> time it had been served
+}
+
+func (wk *worker) servedAt(seq int) time.Time {
+	wk.tmu.Lock()
+	defer wk.tmu.Unlock()
+	return wk.times[seq]
 }
 
 func newWorker(id int, opt *options, cont *content) (*worker, error) {
@@ -238,6 +251,19 @@ func (wk *worker) close() {
 }
 
 func (wk *worker) setNet(n *simreg.Net) {
+	wk.tmu.Lock()
+	wk.times = map[int]time.Time{}
+	wk.tmu.Unlock()
+	for _, name := range hostName {
+		h := n.Host(name)
+		h.Lock()
+		h.After = func(rq *simreg.Request) {
+			wk.tmu.Lock()
+			wk.times[rq.Seq] = time.Now()
+			wk.tmu.Unlock()
+		}
+		h.Unlock()
+	}
 	wk.mu.Lock()
 	wk.net = n
 	wk.mu.Unlock()
